@@ -160,6 +160,83 @@ def gen_script(rng, cfg, hb=0.004, focus=None):
 
 
 
+# ------------------------------------------------------------------ forced late cancels (C04)
+def late_window(rng, exact=True):
+    """script items that continue in a chosen loop turn relative to the reader handing a message to the queue.  The late-cancel window
+    (the receive helper has taken the message, the caller has not yet resumed) is exactly `('before', 1)` and `('after', 0)`;
+    one turn earlier the helper is cancelled with the caller (nothing taken), one turn later the call has returned."""
+    if exact:
+        where, k = rng.choice([('before', 1), ('after', 0)])
+    else:
+        where, k = rng.choice(['before', 'after']), rng.randint(0, 3)
+    return [('await_put', where), ('turns', k)]
+
+
+def gen_late_cancel(rng, cfg, hb=0.004):
+    """C04: scenarios that place the cancel() of a pending receive_msg() / login() in the one-turn window after the helper task took
+    the message (the former finding C04-late-cancel-loses-message), followed by what must then see that message first:
+    receive_msg_nowait(), the next receive_msg(), a second late cancel, the queue being stopped in the very same turn (EndOfQueue to
+    the caller, the message still readable before the end-of-queue), a login() whose own receive is the one cancelled.
+    All of it is inside the Lean session machine: replayed step by step and judged by the oracle."""
+    is_fix = cfg.get('kind') == 'fix-client'
+    codec = FixCodec() if is_fix else SoupCodec()
+    script = [('connect',)]
+    nxt = [1]
+    usr = [1]
+
+    def new_user():
+        usr[0] += 1
+        return usr[0]
+
+    def msgs(k):
+        out = []
+        for _ in range(k):
+            out.append(('msg', nxt[0]))
+            nxt[0] += 1
+        return out
+
+    seg = lambda: rng.choice(['whole', 'whole', 'per-frame', 'random'])
+    flavour = rng.choice(['nowait', 'nowait', 'recv', 'twice', 'stop', 'stop', 'login', 'login-first', 'drain'])
+    if flavour == 'login':
+        # the receive inside login() is the one that is cancelled late: login() closes the session and re-raises; the acceptance
+        # stays readable (receive_msg_nowait on the closed session returns it, then EndOfQueue)
+        u = new_user()
+        script += [('login', u), ('turns', rng.randint(1, 3))]
+        script += cut_stream([('msg', 0)] + msgs(rng.randint(0, 2)), codec, rng, seg())
+        script += late_window(rng, exact=rng.random() < 0.8) + [('cancel', u), ('turns', rng.randint(2, 6))]
+        script += [('recvnw', new_user()) for _ in range(rng.randint(1, 3))]
+        return script
+    if flavour == 'login-first' and cfg['mode'] == 'pull':
+        # a logged-in pull-mode session (heartbeat monitors running)
+        u = new_user()
+        script += [('login', u), ('turns', 2)] + cut_stream([('msg', 0)], codec, rng, 'whole') + [('advance', 0.0003)]
+    rounds = 2 if flavour == 'twice' else 1
+    for r in range(rounds):
+        u = new_user()
+        script += [('recv', u), ('turns', rng.randint(1, 3))]
+        script += cut_stream(msgs(rng.randint(1, 3)), codec, rng, seg())
+        if flavour == 'stop':
+            # the queue is stopped in the turn in which the helper takes the message, before the caller sees its cancellation
+            script += [('await_put', 'before'), rng.choice([('iclose',), ('eof',), ('close', new_user())]), ('turns', 1), ('cancel', u)]
+        else:
+            script += late_window(rng, exact=rng.random() < 0.85) + [('cancel', u)]
+        script += [('turns', rng.randint(1, 4))]
+        if flavour == 'twice' and r == 0:
+            # the next receive takes the stashed message at once; then a fresh blocking receive, cancelled late again
+            script += [('recv', new_user()), ('turns', 2)]
+    if flavour in ('nowait', 'twice', 'stop'):
+        script += [('advance', 0.0005)] if rng.random() < 0.5 else []
+        script += [('recvnw', new_user()) for _ in range(rng.randint(1, 4))]
+    elif flavour == 'recv':
+        script += [('recv', new_user()), ('turns', rng.randint(1, 3))]
+        if rng.random() < 0.5:
+            script += [('advance', 0.0005), ('recv', new_user()), ('turns', 2)]
+    # 'drain' / 'login-first': nothing — whatever is left is taken with receive_msg_nowait after the script (`drained`)
+    if rng.random() < 0.25:
+        script += [('advance', 0.0003), ('close', new_user())]
+    return script
+
+
 def login_window_cases():
     """C11, every run: the hand-over window of the login reply, exhaustively.  For soup and FIX client sessions x pull / callback mode x
     acceptance alone / acceptance followed by a data frame in the same segment x a peer disconnect (`eof`) or a caller cancel placed in
@@ -262,3 +339,36 @@ def gen_ext(rng, hb=0.004):
     if rng.random() < 0.3:
         script.append(('close', new_user()))
     return cfg, script, 0.05 + slow * 1.2
+
+
+def gen_ext_late(rng, hb=0.004):
+    """extended scenarios (oracle only) around a LATE cancel of a pull — the former finding C04-late-cancel-loses-message — followed by
+    a dispatcher: `start_dispatching()` right after the cancelled receive, or the late cancel inside `pause_dispatching()` (the
+    dispatcher restarts when the context exits).  The dispatcher must deliver the message the cancelled receive held FIRST."""
+    codec = SoupCodec()
+    cfg = dict(kind='soup-client', mode='callback', has_cb=rng.random() < 0.8, cb_beh='ret',
+               default_beh=rng.choice(['ret', 'ret', ('await', 0)]), msg_beh={})
+    nxt = [1]
+
+    def msgs(k):
+        out = []
+        for _ in range(k):
+            out.append(('msg', nxt[0]))
+            nxt[0] += 1
+        return out
+    script = [('connect',)]
+    flavour = rng.choice(['startdisp', 'pause'])
+    if flavour == 'startdisp':
+        script += [('recv', 11), ('turns', rng.randint(1, 3))]
+    else:
+        script += [('login', 2), ('turns', 2)] + cut_stream([('msg', 0)], codec, rng, 'whole') + [('advance', 0.0003)]
+        script += [('paused_recv', 11), ('turns', rng.randint(3, 6))]
+    script += cut_stream(msgs(rng.randint(1, 3)), codec, rng, rng.choice(['whole', 'per-frame']))
+    script += late_window(rng, exact=rng.random() < 0.85) + [('cancel', 11), ('turns', rng.randint(0, 2))]
+    if flavour == 'startdisp':
+        script += [('startdisp',)]
+    script += [('advance', 0.0005)] + cut_stream(msgs(rng.randint(1, 2)), codec, rng, 'whole') + [('advance', 0.0005)]
+    if rng.random() < 0.3:
+        script += [('close', 12)]
+    return cfg, script, 0.05
+
